@@ -200,6 +200,7 @@ def mutate_and_restore(w, entry, p, out, seed2, r1, root2, tag):
         w.mutate_to(other)
         try:
             _, r2 = run_entry(w, entry, p, out, None, "call after overwriting the inputs in place:")
+            r2 = detach(r2)  # a result may legitimately alias the inputs (voropp.get_input returns the box-bound arrays)
         finally:
             w.restore()
         w.check_pure("restoring the inputs in place (harness)")
